@@ -69,6 +69,9 @@ func (g *Gen) boundaryCoefOf(w *big.Int) *big.Int {
 
 // wrapCoef: digits just above 2^64/10^k, 2^128/10^k (or just below): one more multiplication by ten wraps a word
 func (g *Gen) wrapCoef() *big.Int {
+	if g.r.Intn(3) == 0 {
+		return g.wrapMultiple()
+	}
 	w := new(big.Int).Lsh(big.NewInt(1), []uint{64, 128, 128, 128, 127, 126, 192}[g.r.Intn(7)])
 	s := w.String()
 	n := 18 + g.r.Intn(18)
@@ -88,6 +91,33 @@ func (g *Gen) wrapCoef() *big.Int {
 		v.Div(v, ten)
 	}
 	return v
+}
+
+// wrapMultiple: c = ceil(j * 2^W / 10^k) + (0..2) for W in {64, 128}, k in the step sizes of the scaling loops and j drawn
+// so that c is a legal coefficient: c * 10^k exceeds j * 2^W by less than 3 * 10^k -- the product wraps to a SMALL value, not
+// only for j = 1.  A guard that inspects the wrapped product ("does the high word still fit") accepts it.
+func (g *Gen) wrapMultiple() *big.Int {
+	return g.wrapMultipleOf([]uint{64, 128, 128}[g.r.Intn(3)], []int{1, 2, 3, 4, 8, 8, 19}[g.r.Intn(7)])
+}
+
+func (g *Gen) wrapMultipleOf(W uint, k int) *big.Int {
+	w := new(big.Int).Lsh(big.NewInt(1), W)
+	jmax := new(big.Int).Div(new(big.Int).Mul(cMax, pow10(k)), w)
+	if jmax.Sign() == 0 { // no multiple fits: the leading 34 digits of 2^W instead
+		c := new(big.Int).Set(w)
+		for c.Cmp(cMax) > 0 {
+			c.Div(c, ten)
+		}
+		return c
+	}
+	j := new(big.Int).Add(new(big.Int).Rand(g.r, jmax), big.NewInt(1))
+	c := new(big.Int).Mul(j, w)
+	c.Add(c, new(big.Int).Sub(pow10(k), big.NewInt(1))).Div(c, pow10(k))
+	c.Add(c, big.NewInt(int64(g.r.Intn(3))))
+	if c.Cmp(cMax) > 0 {
+		c.Set(cMax)
+	}
+	return c
 }
 
 // topValue: values at the very top of the range: coefficients at or just below the largest one (and its decimal
